@@ -55,17 +55,25 @@ def generate(g, tier):
                     if wrap == 'func': prog = [FuncDef('outerf', [], core), Call('outerf', [])]
                     elif wrap == 'loop': prog = [Repeat(Lit(1), None, core)]
                     else: prog = core
-                    text, rd = render_ast(prog, g.units())
+                    text, rd = render_ast(prog, g.units(), '', g.r if g.chance(0.5) else None)
                     cases.append(dict(op='compile', src=dict(text=text), meta=dict(family='sibling', exp=list(expect_of(prog, rd)[:4]))))
     for what in ('func', 'var'):
         mk = [FuncDef('g', [], [Emit('from-g')])] if what == 'func' else [Assign('made', Lit(7))]
         use = [Call('g', [])] if what == 'func' else [Exist('made', neg=True), Emit('fresh')]
         # next iteration / second call: the use comes first, so only a leak from the previous round could satisfy it
-        for prog in ([Repeat(Lit(2), 'i', [IfChain([(Bin('==', Var('i'), Lit(1)), use)], None, [[]]), IfChain([(Lit(True), mk)], None, [[]])])],
+        for prog in ([Repeat(Lit(2), 'i', [IfChain([(Bin('==', Var('i'), Lit(1)), use)], None, [[]])] + mk)],
+                     [Repeat(Lit(3), 'i', [IfChain([(Bin('>', Var('i'), Lit(0)), use)], None, [[]]), Emit('round', Var('i'))] + mk, 'FOR')],
+                     [While('w', Bin('<', Var('w'), Lit(2)), [IfChain([(Bin('==', Var('w'), Lit(1)), use)], None, [[]])] + mk)],
+                     [While(None, Bin('<', Var('cnt'), Lit(2)), [Assign('cnt', Bin('+', Var('cnt'), Lit(1))), IfChain([(Bin('==', Var('cnt'), Lit(2)), use)], None, [[]])] + mk)],
+                     [Repeat(Lit(2), 'i', [IfChain([(Bin('==', Var('i'), Lit(1)), use)], None, [[]]), IfChain([(Lit(True), mk)], None, [[]])])],
                      [FuncDef('twice', [], [IfChain([(Lit(True), use)], None, [[]])] if what == 'var' else [IfChain([(Lit(False), use)], None, [[]]), IfChain([(Lit(True), mk)], None, [[]])]), Call('twice', []), Call('twice', [])],
                      [While('w', Bin('<', Var('w'), Lit(2)), [IfChain([(Bin('==', Var('w'), Lit(1)), use)], None, [[]]), IfChain([(Lit(True), mk)], None, [[]])])]):
+            if any(isinstance(x, While) and x.var is None for x in prog): prog = [Assign('cnt', Lit(0))] + prog
             text, rd = render_ast(prog, g.units())
-            cases.append(dict(op='compile', src=dict(text=text), meta=dict(family='next-round', exp=list(expect_of(prog, rd)[:4]))))
+            exp = list(expect_of(prog, rd)[:4])
+            for alias in ('FUNC ', 'FUNCTION ', 'function ', 'Func '):      # every spelling of the defining command
+                cases.append(dict(op='compile', src=dict(text=text.replace('FUNC ', alias)), meta=dict(family='next-round', exp=exp)))
+                if what == 'var': break
     # the same discipline inside a file pulled in with START / STARTENV (blocks of an imported file)
     from astgen import AstGen
     for _ in range(count(tier, 150, 1500)):
@@ -79,6 +87,23 @@ def generate(g, tier):
         main = 'START lib\n' + ''.join(f'NOTEXIST {d}\n' for d in dead) + 'STRING end'
         cases.append(dict(op='compile_file', file='proj/main.txt', files={'proj/main.txt': main, 'proj/lib.txt': text},
                           meta=dict(family='started', exp=['ok', exp[1] + ['STRING end'], [], exp[3]])))
+    # an imported file that assigns an outer variable from inside a block that does nothing else: the assignment reaches the
+    # enclosing code through every level (START / STARTENV / STARTCODE; IF, loop, function, two levels)
+    for kw in ('START', 'STARTENV', 'STARTCODE'):
+        for blk in ('if', 'repeat', 'while', 'func', 'if-if', 'repeat-if', 'func-if'):
+            for extra in (False, True):
+                inner = [f'{kw} lib'] + (['STRING also'] if extra else [])
+                def wrap(k, lines):
+                    head = {'if': 'IF TRUE', 'repeat': 'REPEAT 1', 'while': 'WHILE w9,w9<1'}.get(k)
+                    if head: return [head] + ['    ' + l for l in lines]
+                    return ['FUNC ld'] + ['    ' + l for l in lines] + ['RUN ld']
+                lines = inner
+                for k in reversed(blk.split('-')): lines = wrap(k, lines)
+                main = ['VAR x 1', 'VAR y 5'] + lines + ['$STRING "out="+x+","+y', 'NOTEXIST fresh']
+                lib = 'VAR x 42\nVAR y y+1\nVAR fresh 9\n$STRING "in="+x'
+                out = ([] if kw == 'STARTENV' else ['STRING in=42']) + (['STRING also'] if extra else []) + ['STRING out=42,6']
+                cases.append(dict(op='compile_file', file='proj/main.txt', files={'proj/main.txt': '\n'.join(main), 'proj/lib.txt': lib},
+                                  meta=dict(family='import-assigns', exp=['ok', out, [], {'x': 42, 'y': 6}])))
     return cases
 
 
